@@ -159,6 +159,9 @@ def oracle(case, r):
         return "density underflow: a log-density below -700 (%r) is reported as -inf: %r" % (min(logpdf(t) for t in case["terms"]), case["terms"])
     if got in ("-inf", "RAISE"): return "%s: all values inside their supports but the posterior is %s: %r" % (_site_of(case), got, case["terms"])
     g = _num(got)
+    if abs(g - tot) > 1e-9 * max(1.0, abs(tot)) and any(logpdf(t) < -700 for t in case["terms"]):
+        # same defect as the -inf case (F13): below exp(-708) the density is a subnormal double and its logarithm loses digits
+        return "density underflow: a log-density below -700 (%r) is reported inaccurately (%r, sum of log-densities %r): %r" % (min(logpdf(t) for t in case["terms"]), g, tot, case["terms"])
     if abs(g - tot) > 1e-9 * max(1.0, abs(tot)): return "%s: log-prior %r, sum of log-densities %r: %r" % (_site_of(case), g, tot, case["terms"])
     return None
 
